@@ -52,14 +52,17 @@ MANIFEST = dict(
          'complete yet not independent (c09_shared_when_empty_refuted). Typed nodes (c09_typed_nodes_checked, '
          'c09_labels_of_a_class_same_mask): the census label of every exported node is derived in the kernel from its '
          'run-time type name and the attribute names read are validated against the census. '
+         'Pickling pair of Output (c09_pickle_state_roundtrip): __getstate__ / __setstate__ read off the source position by '
+         'position; same field at every position, none twice, all data fields present => every field comes back with its '
+         'own value (the choice of the short form is only searched). '
          'Operators: a run none of whose stores is tagged with an operand origin leaves every pre-existing object '
          'unchanged and returns only new objects; in-place operators leave everything separated from the receiver '
          'unchanged. Instancing: a collapse_one run with no template-tagged store or stored value leaves the template '
          'unchanged. Tie (every run): translators regenerate the five Gen tables from vmf.py, keyvalues.py, math.py, '
-         'instancing.py; 142 named instance obligations (per census label — 19 labels incl. Keyvalues_deepcopy / _pickle: '
+         'instancing.py; 144 named instance obligations (per census label — 19 labels incl. Keyvalues_deepcopy / _pickle: '
          'copy_covers_fields, copy_fresh_mutables, copy_sources_match, copy_args_lossless, copy_export_equal, '
          'export_reads_are_fields; per kv branch; per operator family; collapse_*; table level incl. '
-         'all_classes_complete_and_independent, conditional_rows_are_joins, census_labels_of_a_class_agree); census vs run-time identities, '
+         'all_classes_complete_and_independent, conditional_rows_are_joins, census_labels_of_a_class_agree, pickle_state_*:Output); census vs run-time identities, '
          'argument flows vs the real constructors on boundary values, export reads vs traced attribute reads, operator '
          'rows vs real calls, kv model vs implementation; exported real object graphs certified in the kernel (separation; '
          'census rows: independence premises and completeness premises). Search: identity walk, export equality modulo IDs, random in-place mutation histories on either '
@@ -89,7 +92,7 @@ MANIFEST = dict(
 )
 
 IMPORTS = ['Coq.Lists.List', 'Coq.Bool.Bool', 'Coq.ZArith.ZArith', 'Coq.Strings.String', 'SV.SM.Store', 'SV.SM.StoreCert',
-           'SV.SM.StoreCopy', 'SV.SM.StoreCopySrc', 'SV.SM.StoreCopyExport', 'SV.SM.StoreCopyFlow', 'SV.SM.StoreCopyWholeProofs', 'SV.SM.StoreRowCert', 'SV.SM.StoreExportCert', 'SV.SM.StoreTypedLabels', 'SV.SM.StoreCondRow', 'SV.SM.KvAdd', 'SV.SM.KvAddFresh',
+           'SV.SM.StoreCopy', 'SV.SM.StoreCopySrc', 'SV.SM.StoreCopyExport', 'SV.SM.StoreCopyFlow', 'SV.SM.StoreCopyWholeProofs', 'SV.SM.StoreRowCert', 'SV.SM.StoreExportCert', 'SV.SM.StoreTypedLabels', 'SV.SM.StoreCondRow', 'SV.SM.StorePickleState', 'SV.SM.KvAdd', 'SV.SM.KvAddFresh',
            'SV.SM.OpPurity', 'SV.SM.CollapseCensus', 'SV.Gen.CopyCensus_gen', 'SV.Gen.CopyExportReads_gen',
            'SV.Gen.C09OpCensus_gen', 'SV.Gen.C09Collapse_gen', 'SV.Props.C09']
 CORPUS = hc.VERIF / 'corpus' / 'C09'
@@ -165,10 +168,11 @@ class deadline:
 
 def phase(ck: Ck, name: str, fn: Any, *args: Any) -> None:
     """Run one certificate / correspondence phase (they call copy(), export and the operators directly) under a deadline
-    of 900 s (the phases take 2-30 s quick, < 150 s thorough): an implementation call that does not return ends as a failed
+    of 900 s quick / 3600 s thorough (the phases take 2-30 s quick, < 250 s thorough on a machine with load average 60-90):
+    an implementation call that does not return ends as a failed
     obligation that the searches (which have per-case deadlines) then explain with a `hang:` input."""
     try:
-        with deadline(900):
+        with deadline(3600 if ck.thorough else 900):
             fn(ck, *args)
     except ImplHang as e:
         ck.obligation(f'phase:{name}', False, f'a call into the implementation (or coqc) did not return: {e}')
@@ -321,7 +325,7 @@ def _run_copy_cases(jobs: list[tuple]) -> list[tuple[list[dict], int]]:
 
 def search_copies(ck: Ck) -> None:
     from harness import c09_util as U
-    n = _budget(ck, 1000, 40000)
+    n = _budget(ck, 1000, 30000)
     cases: list[tuple[str, int, str]] = []
     if CORPUS.exists():
         for p in sorted(CORPUS.glob('*.json')):
@@ -1667,6 +1671,10 @@ def run(ck: Ck) -> None:
         obs['all_sources_present'] = 'Nat.eqb (List.length all_sources) %d && all_sources_match' % len(side.get('classes', []))
         obs['all_flows_present'] = 'Nat.eqb (List.length all_flows) %d && all_args_lossless' % len(side.get('classes', []))
         obs['all_classes_present'] = 'Nat.eqb (List.length all_census) %d' % len(side.get('classes', []))
+        # premise of c09_pickle_state_roundtrip: __getstate__ / __setstate__ of Output agree position by position, cover every field
+        obs['pickle_state_positions_match:Output'] = 'state_ok (names census_Output) output_state_put output_state_get'
+        obs['pickle_state_short_form_matches:Output'] = ('state_short_ok output_state_put_short output_state_get_short '
+                                                         'output_state_put output_state_get')
         # premise of c09_cond_rows_checked: every conditional row is the join (weaker) of its two branch rows
         obs['conditional_rows_are_joins'] = 'cond_rows_ok all_census cond_rows && Nat.eqb (List.length cond_rows) %d' % len(side.get('cond_rows', []))
         # premise of c09_labels_of_a_class_same_mask: the census label of an exported node may be derived from its type name
@@ -1746,6 +1754,8 @@ def run(ck: Ck) -> None:
         ck.explain('instance:kv_added_items_are_copied')
         for b in ('kv_add_single', 'kv_add_iter', 'kv_iadd_single', 'kv_iadd_iter'):
             ck.explain(f'instance:{b}_branch_appends_copy')
+    if any_key('copy-incomplete:Output:', 'copy-raised:Output:'):
+        ck.explain('instance:pickle_state_')
     if any_key('copy-incomplete:'):
         ck.explain('correspondence:flows_vs_runtime')
         ck.explain('instance:all_sources_present')
